@@ -429,6 +429,12 @@ func body(r *explore.Run, rep *report.R, sc string, variant string, depth int) {
 	s.OnWrite = append(s.OnWrite, w.onWrite)
 
 	events := []string{"mgr", "rev-A", "rev-B", "src=v2", "src=v1", "gc", "delete-inactive-revisions", "toggle-manual-activation"}
+	if variant == "twin-names" {
+		// The TLS server secret the establisher reads for the webhook CA
+		// bundle is made by the runtime hooks; it may not exist (yet, or any
+		// more) when a revision is reconciled.
+		events = append(events, "tls-secret-comes-and-goes")
+	}
 	var trail []string
 	established := map[string]bool{w.revName("A"): true} // revisions that completed an active reconcile
 	for step := 0; step < depth; step++ {
@@ -453,6 +459,13 @@ func body(r *explore.Run, rep *report.R, sc string, variant string, depth int) {
 				}
 				_ = unstructured.SetNestedField(u.Object, next, "spec", "revisionActivationPolicy")
 			})
+		case "tls-secret-comes-and-goes":
+			k := simkube.ObjKey{Kind: "Secret", Namespace: "crossplane-system", Name: "p-tls-server"}
+			if s.Peek(k) != nil {
+				s.Remove(k)
+			} else {
+				s.Seed(&corev1.Secret{TypeMeta: metav1.TypeMeta{APIVersion: "v1", Kind: "Secret"}, ObjectMeta: metav1.ObjectMeta{Namespace: "crossplane-system", Name: "p-tls-server"}, Data: map[string][]byte{"tls.crt": []byte("cert")}})
+			}
 		case "gc":
 			before := crds(s)
 			n := s.GCRun()
@@ -591,6 +604,12 @@ func body(r *explore.Run, rep *report.R, sc string, variant string, depth int) {
 					}
 					if !owner {
 						r.Failf("E3/ownership-dropped", "inactive revision %s no longer owns %s after deactivation (%s)", name, n, describeCRD(c))
+					}
+				}
+				// ... of every object it controls, whatever name it wrote it under.
+				for n, c := range post {
+					if controllerUID(c) == uid {
+						r.Failf("E3/inactive-still-controller", "inactive revision %s completed its reconcile but still controls %s", name, n)
 					}
 				}
 			}
